@@ -174,7 +174,9 @@ func render(e *E, mode ParenMode, out *[]Tok) {
 			if i > 0 {
 				*out = append(*out, punct(","))
 			}
-			render(a, mode, out)
+			// (fully parenthesised: an argument that is an operator expression gets its own pair)
+			a := a
+			wrap(out, mode == FullParens && (a.K == "bin" || a.K == "neg"), func() { render(a, mode, out) })
 		}
 		*out = append(*out, punct(")"))
 	case "path":
